@@ -512,11 +512,42 @@ func (ft *funcTrans) instr(in ssa.Instruction) {
 		r := ft.freshRef(st)
 		ft.define(x, Term{r, w.sortOf(x.Type())})
 	case *ssa.Send:
+		if ft.c != nil && ft.c.CancellableSends {
+			// a plain send blocks until someone receives: nothing can release it once the receiver is gone
+			ft.nAsserts++
+			o := ft.obligation("cancellable", fmt.Sprintf("send%d.cancellable", ft.sendSiteOrdinal(x.Pos())), "every send can be abandoned when the context is cancelled (select with a <-ctx.Done() case)", "false")
+			o.Where = posStr(ft.p.SSA.Fset, x.Pos())
+			w.popFact()
+		}
 		ft.sendReqs(ft.termOf(x.X), ft.termOf(x.Chan), x.Pos())
 		ft.asyncPoint()
 		ft.recordSent(ft.termOf(x.X), "true")
 		ft.countSendAttempt()
 	case *ssa.Select:
+		if ft.c != nil && ft.c.CancellableSends {
+			hasSend, hasDone := false, false
+			var sendPos token.Pos
+			for _, stt := range x.States {
+				if stt.Dir == types.SendOnly {
+					hasSend, sendPos = true, stt.Pos
+				}
+				if stt.Dir == types.RecvOnly {
+					if call, ok := stt.Chan.(*ssa.Call); ok && call.Common().IsInvoke() && call.Common().Method.Name() == "Done" && types.TypeString(call.Common().Value.Type(), nil) == "context.Context" {
+						hasDone = true
+					}
+				}
+			}
+			if hasSend {
+				goal := "true"
+				if !hasDone || !x.Blocking && false {
+					goal = "false"
+				}
+				ft.nAsserts++
+				o := ft.obligation("cancellable", fmt.Sprintf("send%d.cancellable", ft.sendSiteOrdinal(sendPos)), "every send can be abandoned when the context is cancelled (select with a <-ctx.Done() case)", goal)
+				o.Where = posStr(ft.p.SSA.Fset, sendPos)
+				w.popFact()
+			}
+		}
 		for _, stt := range x.States {
 			if stt.Dir == types.SendOnly && stt.Send != nil {
 				ft.sendReqs(ft.termOf(stt.Send), ft.termOf(stt.Chan), stt.Pos)
